@@ -502,6 +502,13 @@ def gen_history(fns, rng, maxlen):
         if not live or r < 0.22:
             kind = rng.choice(["base", "base", "base", "struct", "seq", "grid"])
             name = rng.choice(pool)
+            if kind != "base" and rng.random() < 0.3:
+                # containers named like an existing container: nesting s inside s, later copies hoisted over their
+                # own ancestors (ids of the moved subtree lie below the new id)
+                named = [unquote(w.handles[x].name) for x in w.live() if is_cont(M, w.handles[x])
+                         and not isinstance(w.handles[x], M.DatasetType)]
+                if named:
+                    name = rng.choice(named)
             do(("new", kind, name, fresh_atom() if kind == "base" else 0), name)
             w.rawname[-1] = name
             # usually insert it right away
@@ -684,6 +691,14 @@ WITNESSES = [
     [("new", "struct", "st", 0), ("new", "base", "y z", 1), ("set", 0, [], "y z", 1), ("select", 0, [], ["y z"]),
      ("new", "base", "y z", 2), ("set", 2, [], "y z", 3)],
     [("new", "struct", "st", 0), ("new", "base", "x", 1), ("set", 0, [], "x", 1), ("select", 0, [], ["x", "x"])],
+    # a container nested in a container of the same name, its copy hoisted to the outer one's place: the ids of
+    # the copy's children must be re-derived although the old ids (s.s.a) lie below the new one (s)
+    [("new", "dataset", "d", 0), ("new", "seq", "s", 0), ("new", "seq", "s", 0), ("new", "base", "a", 1),
+     ("set", 2, [], "a", 3), ("new", "struct", "q", 0), ("new", "base", "x y", 2), ("set", 4, [], "x y", 5),
+     ("set", 2, [], "q", 4), ("set", 1, [], "s", 2), ("set", 0, [], "s", 1), ("copy", 0, ["s", "s"]),
+     ("set", 0, [], "s", 6)],
+    [("new", "struct", "s", 0), ("new", "struct", "s", 0), ("new", "base", "a", 1), ("set", 1, [], "a", 2),
+     ("set", 0, [], "s", 1), ("copy", 0, ["s"]), ("new", "dataset", "e", 0), ("set", 4, [], "s", 3)],
 ]
 
 
